@@ -152,6 +152,8 @@ def public(ctx):
         diag = rng.random() < 0.6
         w = [rng.choice([0.25, 0.5, 1.0]) for _ in edges]
         C = gen.graph_csr(n, edges, diag=diag, weights=w)
+        if it % 3 == 2:
+            C = gen.unsorted_copy(C, rng)       # same graph, column indices of every row stored in shuffled order
         C.indptr = C.indptr.astype(I32)
         C.indices = C.indices.astype(I32)
         base = dict(n=n, edges=edges, diag=diag, kind=kind)
